@@ -109,7 +109,8 @@ def gen_cases(tier, seed):
                         ops.append({"op": "bits_get", "bits": bits, "spelling": sp, "name": names[(lo, hi)]})
                         ops.append({"op": "bits_set", "bits": bits, "spelling": sp, "name": names[(lo, hi)], "val": rng.randrange(1 << n)})
                 cases.append({"kind": kind, "t": t, "fn": 1, "fd": 1, "descs": [], "bitdefs": bitdefs, "ops": ops,
-                              "desc_defs": True, "arr_member": kind == "sdo" and len(cases) % 3 == 0})
+                              "desc_defs": True, "arr_member": kind == "sdo" and len(cases) % 3 == 0,
+                              "held": len(cases) % 2 == 1})
     # bit fields of signed variables (raw values of both signs, fields with and without the sign bit)
     for kind in ("sdo", "pdo"):
         for w, t in {8: 0x2, 16: 0x3, 32: 0x4}.items():
@@ -133,7 +134,7 @@ def gen_cases(tier, seed):
                             ops.append({"op": "bits_get", "bits": bits, "spelling": rng.choice(spell),
                                         "name": names[(lo, hi)]})
                 cases.append({"kind": kind, "t": t, "fn": 1, "fd": 1, "descs": [], "bitdefs": bitdefs, "ops": ops,
-                              "image": True})
+                              "image": True, "held": len(cases) % 2 == 1})
     return cases
 
 
